@@ -192,6 +192,9 @@ def types_of(lib, bib):
     return {"name": sorted(name), "other": sorted(other), "str_values": sorted(sv)}
 
 
+_ABSENT = object()
+
+
 def apply_event(bib, lib, name, factory, eid):
     """Apply one copy-mode middleware, return (event, output library or None)."""
     before = proj(lib, bib)
@@ -211,6 +214,26 @@ def apply_event(bib, lib, name, factory, eid):
             shared[ids_in[i]] = shared.get(ids_in[i], 0) + 1
     ev = {"id": eid, "mw": name.split("(")[0], "inplace": False, "types": ty, "raised": raised, "changed": before != after,
           "shared": sum(shared.values()), "same_text_twice": True, "fmt_unchanged": True, "bad_template": False}
+    if out is not None:
+        # metadata protocol (informational): which keys differ between a block and its counterpart in the result
+        def ident(b):
+            return (type(b).__name__, b.raw, b.start_line)
+        ins, outs = {}, {}
+        for b in lib.blocks:
+            ins.setdefault(ident(b), []).append(b)
+        for b in out.blocks:
+            outs.setdefault(ident(b), []).append(b)
+        touched = set()
+        for k, bs in ins.items():
+            for a, b in zip(bs, outs.get(k, [])):
+                for mk in set(a.parser_metadata) | set(b.parser_metadata):
+                    try:
+                        same = a.parser_metadata.get(mk, _ABSENT) == b.parser_metadata.get(mk, _ABSENT)
+                    except Exception:  # noqa
+                        same = False
+                    if not same:
+                        touched.add(mk if isinstance(mk, str) else repr(mk))
+        ev["meta_touched"] = sorted(touched)
     return ev, out, {"name": name, "exc": exc, "shared": shared}
 
 
@@ -335,13 +358,19 @@ def run(chk: core.Check):
     verdict = core.validate_traces("Trace_Middleware", events, shards=8)
     for r in verdict.results:
         chk.add_tlc(r, "Trace_Middleware shard", count_states=False)
+    notes = [rj for rj in verdict.rejects if rj["clause"].startswith("note:")]
+    chk.extra["metadata_protocol_differences(informational)"] = len(notes)
+    for rj in notes[:5]:
+        print("NOTE C07 metadata protocol:", info[rj["reject"]]["stack"], events[rj["reject"]].get("meta_touched"), "may touch", rj["expected"])
     for rj in verdict.rejects:
+        if rj["clause"].startswith("note:"):
+            continue
         i = info[rj["reject"]]
         ev = events[rj["reject"]]
         chk.mismatch(rj["clause"], {"kind": "stack", "library": i["library"], "stack": i["stack"]},
                      {"raised": i["exc"] or False, "input_changed": ev["changed"], "shared_mutable_objects": i["shared"], "types": ev["types"]},
                      rj["expected"], spec={"module": "Trace_Middleware", "operator": "Bad"}, kind="stack")
-    chk.traces += len(events) - len(verdict.rejects)
+    chk.traces += len(events) - (len(verdict.rejects) - len(notes))
     chk.evaluations += len(events)
     chk.clause("T3.application(no aliasing, input frozen, no exception on applicable stacks)", len(events))
     raised = sum(1 for e in events if e["raised"])
